@@ -22,6 +22,7 @@ fn main() {
             cfg.hazards = pv::prop::c16::ALL_HAZARDS.iter().copied().filter(|x| h.split(',').any(|y| y == *x)).collect();
         }
         if std::env::var("BIAS").as_deref() == Ok("Sort") { cfg.bias = Bias::Sort; }
+        if std::env::var("BIAS").as_deref() == Ok("Window") { cfg.bias = Bias::Window; }
         if std::env::var("APPEND_BOOST").is_ok() { cfg.append_boost = true; cfg.bias = Bias::Frame; }
         let g = Gen::new(&mut t, cfg);
         let (_db, prog, _f, _t) = g.gen_prog();
